@@ -34,3 +34,17 @@ Definition chains_okb (npc : N) (chains : list chain) : bool :=
 
 Definition schema_chains_ok (S : lvsfile) : res bool :=
   do cs <- chains_of S ;; Ok (chains_okb (N.of_nat (length (ns_named (snd cs)))) (fst cs)).
+
+(* what the lexer guarantees of a schema and the chain-level theorems need: literal components are non-empty
+   byte strings, user function identifiers look like "$name" *)
+Definition arg_wf (a : arg) : bool := match a with ALit c => wf_bytesb c | APat _ => true end.
+Definition opt_wf (o : opt) : bool :=
+  match o with
+  | OLit c => wf_bytesb c
+  | OPat _ => true
+  | OFn f args => fid_ok f && forallb arg_wf args
+  end.
+Definition rule_wf (d : rule) : bool :=
+  forallb (fun c => match c with CLit v => match v with [] => false | _ => true end | _ => true end) (r_name d)
+  && forallb (forallb (fun tc => forallb opt_wf (tc_opts tc))) (r_cons d).
+Definition schema_wf (S : lvsfile) : bool := forallb rule_wf S.
